@@ -49,6 +49,10 @@ ssl_timeoutio(int (*func)(), SSL *s, time_t t, char *buf, const int len)
 
 	do {
 		errno = 0;
+		/* SSL_get_error() only works reliably if the error queue was empty before the I/O
+		 * operation: entries left behind by unrelated calls (e.g. a CA file that could not
+		 * be loaded) would turn a plain "want read" into a fatal protocol error */
+		ERR_clear_error();
 		int r = buf ? func(s, buf, len) : func(s);
 
 		if (r > 0)
